@@ -267,7 +267,7 @@ def render_multi(root, rng, ncases):
                     decls.append(rng.choice(["type %s struct{}", "var %s = 1", "func %s() {}", "const %s = 2"]) % pn)
                     alias = "app" + pn
                 elif style == "aliased":
-                    alias = pn[0] + "x"
+                    alias = pn[:3] + "x"
                 imports.append('\t%s"e2e/%s/sh/%s"' % ("" if alias == pn else alias + " ", base, pn))
                 provs.append("kessoku.Provide(%s.New)" % alias)
                 params.append("a%d *%s.%s" % (len(params), alias, tn))
